@@ -1622,11 +1622,16 @@ def rule_optable(repo, backend):
             hl = hole_list(v.parts)
             cons = f"visit_Reduce -> {sk}"
             tabs = _dicts_keyed_by_bir(repo, c, f)
-            ok = sk == '(⟨0⟩ ⟨1⟩)' and len(hl) == 2 and hl[1].text == 's.visit(node.value)' and \
+            ok = sk == '(⟨0⟩ ⟨1⟩)' and len(hl) == 2 and hl[1].text in ('s.visit(node.value)', 's.visit_expr_wrap(node.value)') and \
                 isinstance(hl[0].expr, ast.Subscript) and norm(hl[0].expr.slice) == 'type(node.op)' and len(tabs) == 1
             if not ok:
                 r.bad(c.mod, fq(c, f), cons, "reduction must be emitted as ( <op> <operand> ) with the operator looked up "
                       "from the node's own op", o.node.lineno)
+            elif hl[1].text != 's.visit_expr_wrap(node.value)':
+                red_tab = tabs[0]
+                r.bad(c.mod, fq(c, f), cons + " operand " + hl[1].text, "the operand of a reduction is spliced in without parentheses: the "
+                      "unary reduction operator binds tighter than any binary operator, so reduce_and(a | b) is emitted as "
+                      "( & a | b ) = (&a) | b", o.node.lineno)
             else:
                 red_tab = tabs[0]
                 r.ok(c.mod, fq(c, f), cons)
@@ -1944,6 +1949,55 @@ class _BlockingEv(_Ev):
                     vals.append(bool(self.ev(e.args[0].elt)))
             self.bound.pop(g.target.id, None)
             return any(vals) if name == 'any' else all(vals)
+        return super().ev_Call(e)
+
+
+class _StmtEv(_Ev):
+    """evaluates a begin/end condition for node.<field> = an abstract list of IR statements [(kind, number of targets)];
+    the local list of emitted lines of the same name has one line per emitted statement"""
+    def __init__(self, lk, vis, aliases, field, stmts, bound=None, depth=0):
+        super().__init__({})
+        self.lk, self.vis, self.aliases, self.field, self.stmts = lk, vis, aliases, field, stmts
+        self.bound, self.depth = dict(bound or {}), depth
+
+    def ev(self, e):
+        t = norm(e)
+        if t == f"node.{self.field}":
+            return list(self.stmts)
+        if t == self.field:
+            return ['line'] * sum(n for _, n in self.stmts)
+        if isinstance(e, ast.Name) and e.id in self.bound:
+            return self.bound[e.id]
+        if isinstance(e, ast.Attribute) and e.attr == 'targets':
+            v = self.ev(e.value)
+            if isinstance(v, tuple) and len(v) == 2:
+                return ['t'] * v[1]
+        return super().ev(e)
+
+    def ev_Call(self, e):
+        name = norm(e.func)
+        if name == 'isinstance' and len(e.args) == 2:
+            v = self.ev(e.args[0])
+            names = [attr_ref(x, self.aliases) for x in (e.args[1].elts if isinstance(e.args[1], ast.Tuple) else [e.args[1]])]
+            if isinstance(v, tuple) and all(names):
+                return v[0] in names
+            raise AnalysisError(f"isinstance outside the abstract domain: {norm(e)}")
+        if name == 'sum' and len(e.args) == 1 and isinstance(e.args[0], (ast.GeneratorExp, ast.ListComp)) and len(e.args[0].generators) == 1:
+            g = e.args[0].generators[0]
+            tot = 0
+            for item in self.ev(g.iter):
+                sub = _StmtEv(self.lk, self.vis, self.aliases, self.field, self.stmts, dict(self.bound, **{g.target.id: item}), self.depth)
+                if all(sub.ev(c) for c in g.ifs):
+                    tot += sub.ev(e.args[0].elt)
+            return tot
+        if isinstance(e.func, ast.Attribute) and isinstance(e.func.value, ast.Name) and e.func.value.id == 's' and self.depth < 3:
+            res = self.lk.find(self.vis, e.func.attr)
+            if res is not None and len(e.args) == len(res[1].args.args) - 1:
+                hf = res[1]
+                rets = [x for x in walk_no_nested(hf) if isinstance(x, ast.Return) and x.value is not None]
+                if len(rets) == 1:
+                    bound = {a.arg: self.ev(x) for a, x in zip(hf.args.args[1:], e.args)}
+                    return _StmtEv(self.lk, self.vis, bir_aliases(self.lk.repo, res[0].mod), self.field, self.stmts, bound, self.depth + 1).ev(rets[0].value)
         return super().ev_Call(e)
 
 
@@ -2313,6 +2367,43 @@ def rule_assign(repo, backend):
             r.ok(c.mod, fq(c, f), cons)
     if seen_b != {True, False}:
         raise AnalysisError("visit_Assign: blocking / non-blocking forms not both found")
+    # (e') a branch / loop body that emits more than one Verilog statement is wrapped in begin ... end
+    for hname, fields in (('visit_If', ('orelse',)), ('visit_For', ('body',))):
+        chain_ = []
+        for c_, f_ in lk.all_defs(vis, hname):
+            chain_.append((c_, f_))
+            if not any(is_passthrough(x, hname) for x in ast.walk(f_) if isinstance(x, ast.Call)):
+                break
+        if not chain_:
+            continue
+        c, f = chain_[-1]
+        al = bir_aliases(repo, c.mod)
+        tests = []
+        for n_ in walk_no_nested(f):
+            if isinstance(n_, ast.IfExp) and isinstance(n_.body, ast.Constant) and isinstance(n_.body.value, str) and 'begin' in n_.body.value:
+                tests.append(('begin', n_.test, n_))
+            elif isinstance(n_, ast.If) and any(isinstance(x, ast.Constant) and x.value == 'end' for st_ in n_.body for x in ast.walk(st_)) \
+                    and not any(isinstance(x, (ast.If, ast.For)) for st_ in n_.body for x in ast.walk(st_)):
+                tests.append(('end', n_.test, n_))
+        for kind, test, node_ in tests:
+            fld = [x for x in fields if x in norm(test)]
+            if not fld:
+                continue
+            verdicts = {}
+            for label, stmts_ in (('one chained assignment `a = b = x`', [('Assign', 2)]), ('two statements', [('Assign', 1), ('Assign', 1)])):
+                try:
+                    verdicts[label] = bool(_StmtEv(lk, vis, al, fld[0], stmts_).ev(test))
+                    nev += 1
+                except (AnalysisError, Raised, TypeError, KeyError, IndexError) as e:
+                    raise AnalysisError(f"{fq(c, f)}: begin/end condition outside the abstract domain: {norm(test)[:80]} ({e})")
+            cons = f"{hname}: `{kind}` of node.{fld[0]} emitted if {norm(test)}"
+            wrong = [k for k, v_ in verdicts.items() if not v_]
+            if wrong:
+                r.bad(c.mod, fq(c, f), cons, f"for {wrong[0]} as the whole {'else branch' if fld[0] == 'orelse' else 'loop body'} the "
+                      f"condition is false although two Verilog statements are emitted: without begin/end only the first one belongs "
+                      f"to the {'else' if fld[0] == 'orelse' else 'for'}, the second runs unconditionally", node_.lineno)
+            else:
+                r.ok(c.mod, fq(c, f), cons)
     # (f) block layout
     block_layout(lk, vis, 'visit_CombUpblk', r, _comb_header, 'combinational')
     block_layout(lk, vis, 'visit_SeqUpblk', r, _seq_header, 'update_ff')
@@ -2384,6 +2475,7 @@ def _hole_eq(h, leaves, want):
 
 
 V_VALUE = 's.visit(node.value)'
+V_WRAP = 's.visit_expr_wrap(node.value)'
 
 
 def rule_slice(repo, backend):
@@ -2468,11 +2560,21 @@ def rule_slice(repo, backend):
         sk = v.skeleton()
         hl = hole_list(v.parts)
         hs = [h.text for h in hl]
-        if sk == '⟨0⟩' and hs == [V_VALUE]:
-            return None if T == C else f"the operand is emitted unchanged although the target width {T} differs from the operand width {C}"
+        if sk == '⟨0⟩' and hs in ([V_VALUE], [V_WRAP]):
+            if T != C:
+                return f"the operand is emitted unchanged although the target width {T} differs from the operand width {C}"
+            if hs == [V_VALUE]:
+                return ("for equal widths the operand's text takes the place of the whole expression but is not parenthesised: "
+                        "trunc(a + b, 8) * c is emitted as a + b * c")
+            return None
         if kind in ('ZeroExt', 'SignExt', 'SizeCast') and T > C:
             if kind == 'SignExt':
                 if sk == SEXT_BIT and hs[1] == V_VALUE:
+                    named = any(p is False and isinstance(t_, ast.Call) and norm(t_.func) == 'isinstance' and norm(t_.args[0]) == 'node.value'
+                                and 'BinOp' in norm(t_.args[1]) for t_, p in v.conds)
+                    if not named:
+                        return ("the sign bit is selected by appending [msb] to the operand's text, but no path condition excludes an "
+                                "operand that is an expression: sext(a + b, 16) is emitted as { {8{ a + b[7] }}, a + b }")
                     if not _hole_eq(hl[0], lv, T - C):
                         return f"replication count `{hs[0]}` is not target-current ({T}-{C})"
                     if not _hole_eq(hl[2], lv, C - 1):
@@ -2656,6 +2758,24 @@ class _RangeEv(_Ev):
         return [self.ev(x) for x in e.elts]
 
 
+_DEC_LIT = re.compile(r"⟨(\d+)⟩'d⟨(\d+)⟩")
+
+
+def decimal_literal_problem(variant):
+    """`<W>'d<V>`: V must be formatted from an int; an object whose str()/format() is not decimal (Bits prints hex digits)
+    changes the value (Bits8(16) -> 8'd10).  Returns a message or None"""
+    hl = hole_list(variant.parts)
+    for m in _DEC_LIT.finditer(variant.skeleton()):
+        h = hl[int(m.group(2))]
+        t = h.text
+        if t.startswith('int(') or t.endswith('.uint()') or re.search(r"\._value$", t):
+            continue
+        return (f"the literal's digits are produced by formatting `{t}` without converting it with int() (path conditions "
+                f"{[(norm(c)[:50], p) for c, p in variant.conds][-2:]}): a Bits object prints hexadecimal digits (16 -> 'd10) and a "
+                f"bool prints True / False (s.EN = True -> 1'dTrue)")
+    return None
+
+
 def rule_width_cast(repo, backend):
     r = RuleResult('R-tr-width-cast', f"[{backend}] every implicitly sized term (number, free variable, loop variable, implicit "
                                       f"temporary, constant attribute) is emitted with an explicit size taken from node.Type, "
@@ -2677,7 +2797,11 @@ def rule_width_cast(repo, backend):
                 w = sized_width(v)
                 cons = f"visit_{kind} -> {v.skeleton()} {[h.text for h in hole_list(v.parts)]}"
                 okw = w == NODE_W or (w == 'node.obj.nbits' and cond_true(v, r'isinstance\(node\.obj, Bits\)'))
-                if w is None:
+                dp = decimal_literal_problem(v)
+                if dp is not None:
+                    guard = [f"{norm(t_)[:60]}={p_}" for t_, p_ in v.conds if 'isinstance' in norm(t_)][-1:]
+                    r.bad(c.mod, fq(c, f), cons + (f" under {guard[0]}" if guard else ''), dp, o.node.lineno)
+                elif w is None:
                     r.bad(c.mod, fq(c, f), cons, f"a {kind} is emitted without an explicit size: Verilog sizes it from the "
                           f"context (32 bits for integers), not with the width the type checker inferred", o.node.lineno)
                 elif not okw:
@@ -2729,8 +2853,14 @@ def rule_width_cast(repo, backend):
                      (r"isinstance\(node\.value\.Type\.get_dtype\(\), \w+\.Struct\)", True),
                      (r"isinstance\(node\.Type\.get_object\(\), Bits\)", True), (r"isinstance\(node\.Type\.get_object\(\), int\)", False),
                      (r"node\.Type\.get_object\(\) is None", False), (r"is_bitstruct_inst\(.*\)", False)])
+    SC_COMP_BITS = scen([(r"isinstance\(node\.Type, \w+\.Const\)", True), (r"isinstance\(node\.Type\.get_dtype\(\), \w+\.Vector\)", True),
+                         (r"isinstance\(node\.value, \w+\.Base\)", True), (r"isinstance\(node\.value\.Type, \w+\.Component\)", True),
+                         (r"isinstance\(node\.value\.Type, \w+\.(Signal|InterfaceView|Const)\)", False),
+                         (r"isinstance\(node\.Type\.get_object\(\), int\)", False), (r"isinstance\(node\.Type\.get_object\(\), Bits\)", True),
+                         (r"is_bitstruct_inst\(.*\)", False)])
     att = emissions(lk, vis, 'visit_Attribute')
-    for label, assume in (('component constant s.K', SC_COMP), ('field of a constant struct s.K.f', SC_FIELD)):
+    for label, assume in (('component constant s.K', SC_COMP), ('component constant s.K of a Bits type', SC_COMP_BITS),
+                          ('field of a constant struct s.K.f', SC_FIELD)):
         n_live = 0
         for c, f, o in att:
             if o.kind != 'return' or o.value is None:
@@ -2750,7 +2880,10 @@ def rule_width_cast(repo, backend):
                     cons = f"visit_Attribute [{label}] -> {v.skeleton()} {[h.text[:60] for h in hl]}"
                     if w is None and len(hl) == 1 and isinstance(hl[0].expr, ast.Call) and norm(hl[0].expr.func) == 's._literal_number':
                         w = 'literal'
-                    if w is None:
+                    dp = decimal_literal_problem(v)
+                    if dp is not None:
+                        r.bad(c.mod, fq(c, f), cons, dp, o.node.lineno)
+                    elif w is None:
                         r.bad(c.mod, fq(c, f), cons, "a constant integer attribute is emitted without an explicit size "
                               "(context-determined sizing, e.g. 32-bit arithmetic instead of the checked width)", o.node.lineno)
                     elif w not in (NODE_W, 'literal'):
@@ -5334,4 +5467,178 @@ def rule_dispatch(repo):
                     r.ok(mod_, where, cons)
     r.evaluations = n
     r.require_floor(8)
+    return r
+
+
+# ---------------------------------------------------------------------------
+def rule_ifc_source(repo, backend):
+    r = RuleResult('R-tr-ifc-source', f"[{backend}] every generator that flattens an interface iterates the accessor that includes "
+                                      f"nested interfaces (get_all_properties_packed), like all its siblings (declaration, connection "
+                                      f"and port-map generators of the generic, SV and Yosys translators)")
+    tm = repo.mod(RTYPE)
+    ifc_m = tm.methods('InterfaceView')
+    comp_m = tm.methods('Component')
+    port_only = set()
+    for name, f in ifc_m.items():
+        if not name.startswith('get_') or name in comp_m:
+            continue
+        txt = norm(f.body)
+        if re.search(r"isinstance\([^)]*Port\)|\.direction\b", txt):
+            port_only.add(name)
+    full = ifc_m.get('get_all_properties_packed')
+    if full is None or not port_only:
+        raise AnalysisError("anchor vanished: InterfaceView accessors")
+    if re.search(r"isinstance\([^)]*Port\)", norm(full.body)):
+        r.bad(tm, 'InterfaceView.get_all_properties_packed', 'get_all_properties_packed', "the accessor used by every interface "
+              "flattener filters out nested interfaces", full.lineno)
+    n = 0
+    files = backend_files(backend) + ([] if backend == 'yosys' else [])
+    for rel in files:
+        m = repo.mod(rel)
+        for node in ast.walk(m.tree):
+            if not (isinstance(node, ast.Call) and isinstance(node.func, ast.Attribute) and not node.args):
+                continue
+            a = node.func.attr
+            fn_ = enclosing(node, (ast.FunctionDef,))
+            q = qualname(fn_) if fn_ is not None else '<module>'
+            if a == 'get_all_properties_packed':
+                n += 1
+                r.ok(m, q, f"{norm(node)[:70]}")
+            elif a in port_only:
+                n += 1
+                r.bad(m, q, norm(node)[:70], f"this flattener iterates `{a}()`, which returns the ports of the interface only: an "
+                      f"interface nested in it is neither declared nor connected (its sibling generators use "
+                      f"get_all_properties_packed(), so e.g. the port map / the child's module header still list the nested ports)",
+                      node.lineno)
+    r.evaluations = n
+    r.require_floor(5 if backend == 'sv' else 7)
+    return r
+
+
+# ---------------------------------------------------------------------------
+def rule_range_args(repo, backend):
+    r = RuleResult('R-tr-range', f"[{backend}] `for i in range(..)` is read as range(end) -> (0, end, 1), range(start, end) -> "
+                                 f"(start, end, 1), range(start, end, step) -> (start, end, step)")
+    lk = linker(repo)
+    gen = generator_class(repo, backend)
+    res = lk.find(gen, 'visit_For')
+    if res is None:
+        raise AnalysisError("anchor vanished: generator visit_For")
+    c, f = res
+    al = bir_aliases(repo, c.mod)
+    nodes, _ = bir_classes(repo)
+    flds = nodes.get('For')
+    if not flds or not {'start', 'end', 'step'} <= set(flds):
+        raise AnalysisError("anchor vanished: bir.For fields")
+    ex, outs = sym_run(f)
+    nev = 0
+    for k in (1, 2, 3):
+        live = []
+        for o in outs:
+            if o.kind != 'return' or o.value is None:
+                continue
+            lv = {'len(node.iter.args)': k, 'node.orelse': [], "node.iter.func.id": 'range', 'loop_var_name': 'i'}
+            okp = True
+            for t, p in o.conds:
+                if p not in (True, False):
+                    continue
+                v = tri(t, lv)
+                nev += 1
+                if v is not None and v != p:
+                    okp = False
+                    break
+            if okp:
+                live.append(o)
+        cons = f"range with {k} argument(s)"
+        if len(live) != 1:
+            raise AnalysisError(f"{fq(c, f)}: {len(live)} paths for a range() with {k} argument(s)")
+        v = live[0].value
+        if not (isinstance(v, ast.Call) and attr_ref(v.func, al) == 'For' and len(v.args) == len(flds)):
+            r.bad(c.mod, fq(c, f), cons, "visit_For does not build bir.For(var, start, end, step, body)", live[0].node.lineno)
+            continue
+        got = {fl: v.args[i] for i, fl in enumerate(flds)}
+
+        def show(e):
+            if isinstance(e, ast.Call) and attr_ref(e.func, al) == 'Number' and len(e.args) == 1:
+                return f"Number({norm(e.args[0])})"
+            return norm(e)
+        arg = lambda i: f"s.visit(node.iter.args[{i}])"
+        want = {1: ('Number(0)', arg(0), 'Number(1)'), 2: (arg(0), arg(1), 'Number(1)'), 3: (arg(0), arg(1), arg(2))}[k]
+        have = (show(got['start']), show(got['end']), show(got['step']))
+        if have != want:
+            r.bad(c.mod, fq(c, f), f"{cons} -> (start, end, step) = {have}", f"expected {want}: e.g. range(2, 6) is translated (and type "
+                  f"checked) as a loop from {have[0]} instead of from its first argument", live[0].node.lineno)
+        else:
+            r.ok(c.mod, fq(c, f), f"{cons} -> {have}")
+    r.evaluations = nev
+    r.require_floor(3)
+    return r
+
+
+# ---------------------------------------------------------------------------
+def per_block_state_findings(cls, enter):
+    """containers of the visitor that enter() fills must be created afresh by enter() itself"""
+    me = enter.args.args[0].arg
+    out = []
+    fills = {}
+    for n in walk_no_nested(enter):
+        attr = None
+        if isinstance(n, ast.Assign) and len(n.targets) == 1 and isinstance(n.targets[0], ast.Subscript):
+            t = n.targets[0].value
+            if isinstance(t, ast.Attribute) and isinstance(t.value, ast.Name) and t.value.id == me:
+                attr = t.attr
+        elif isinstance(n, ast.Call) and isinstance(n.func, ast.Attribute) and n.func.attr in ('add', 'update', 'append', 'setdefault') \
+                and isinstance(n.func.value, ast.Attribute) and isinstance(n.func.value.value, ast.Name) and n.func.value.value.id == me:
+            attr = n.func.value.attr
+        if attr:
+            fills.setdefault(attr, n)
+    for attr, first in sorted(fills.items()):
+        fresh = [n for n in walk_no_nested(enter) if isinstance(n, ast.Assign) and any(norm(t) == f"{me}.{attr}" for t in n.targets)
+                 and _is_fresh_container(n.value) and not [g for g in guards_of(n) if g.kind in ('if', 'loop', 'except')]
+                 and n.lineno < first.lineno]
+        out.append((attr, bool(fresh), first))
+    return out
+
+
+_ENTER_EXAMPLE = """
+class Gen:
+  def __init__( s, component ):
+    s.closure = {}
+  def enter( s, blk, ast ):
+    s.blk = blk
+    for i, var in enumerate( blk.__code__.co_freevars ):
+      s.closure[ var ] = blk.__closure__[ i ].cell_contents
+    return s.visit( ast )
+"""
+
+
+def rule_block_state(repo, backend):
+    r = RuleResult('R-tr-block-state', f"[{backend}] what a per-block visitor collects about one update block (its closure variables) "
+                                       f"is created afresh when that block is entered, so nothing of an earlier block stays visible")
+    lk = linker(repo)
+    n = 0
+    for what, cls in (('RTLIR generator', generator_class(repo, backend)), ('emitter', tov_visitor(repo, backend)),
+                      ('type checker', typecheck_visitor(repo, backend))):
+        res = lk.find(cls, 'enter')
+        if res is None:
+            raise AnalysisError(f"anchor vanished: {cls.name}.enter")
+        c, f = res
+        fs = per_block_state_findings(c, f)
+        for attr, ok, node in fs:
+            n += 1
+            cons = f"{what}: enter() fills s.{attr}"
+            if ok:
+                r.ok(c.mod, fq(c, f), cons + " after creating it afresh")
+            else:
+                r.bad(c.mod, fq(c, f), cons, f"enter() adds the entered block's entries to s.{attr} without creating the container "
+                      f"afresh: free variables of a block entered earlier stay visible, so in a later block a name that should "
+                      f"resolve to a module-level global (or be rejected) resolves to the other block's closure value", node.lineno)
+    from .loader import _set_parents
+    ex = ast.parse(_ENTER_EXAMPLE)
+    _set_parents(ex)
+    probe = per_block_state_findings(None, ex.body[0].body[1])
+    if not probe or all(ok for _, ok, _ in probe):
+        raise AnalysisError("R-tr-block-state: the embedded example (closure created in __init__, filled in enter) was not flagged")
+    r.evaluations = n
+    r.require_floor(3)
     return r
